@@ -177,8 +177,16 @@ def run_check(tier, seed):
                     nprocs = 1
                 else:
                     hints, env, enddef = rand_config(rng)
+                big = (k % 2 == 1)
+                if big and c > 0:
+                    # aggregation-focused configurations: several ranks, 0 < aggregators < ranks, larger strided collective writes
+                    nprocs = rng.choice([2, 3, 4])
+                    ag = 'nc_num_aggrs_per_node=%d' % rng.range(1, max(1, nprocs - 1))
+                    hints = ag if hints == '-' else ';'.join([h for h in hints.split(';') if not h.startswith('nc_num_aggrs_per_node')] + [ag])
+                    if 'PNETCDF_HINTS' in env:
+                        env = dict(env); env['PNETCDF_HINTS'] = hints; 
                 rl, rd = SplitMix64(lseed), SplitMix64(rng.next())
-                p = apigen.gen_rw_program(rl, 'c10b_%d_%d.nc' % (k, c), nprocs, hints=hints, rd=rd, enddef=enddef)
+                p = apigen.gen_rw_program(rl, 'c10b_%d_%d.nc' % (k, c), nprocs, hints=hints, rd=rd, enddef=enddef, big=big)
                 text = p.text()
                 sp = _write(wd, 'b.txt', text)
                 rc, impl, err = apicmp.run_impl(exe, sp, nprocs, wd, env=env)
